@@ -286,11 +286,38 @@ Definition guard_F1_case (c : case) : bool :=
   guard_F1 (map (entry_of (o_parse_ip c) (o_parse_cidr c)) (configured (k_mode c) (k_cfg c)))
            (o_parse_ip c (ip_from_host_port (o_split c) (r_remote (k_req c)))).
 
-(** [impl_fixed]: false for the pinned loader (C09-F1 open), true once fixes/C09-F1.diff is applied *)
-Definition check (impl_fixed : bool) (c : case) : verdict :=
+(** one request.  [impl_fixed]: false for the pinned loader (C09-F1 open), true once fixes/C09-F1.diff is applied *)
+Definition check1 (impl_fixed : bool) (c : case) : verdict :=
   {| v_corr := oracles_ok c && headers_ok c && k_loaded c && corr impl_fixed c;
      v_prop := prop c;
      v_guards := guards [(1%Z, guard_F1_case c && negb impl_fixed)] |}.
+
+(** A case of the stream is a HISTORY: the requests one freshly started instance served, in this order
+    (a single request is the history of length one).  The model of an instance has no state
+    ([run_instance] = [map handle]), so every step is predicted and judged on its own; all steps must have been
+    served by the same instance (mode and configuration agree).  An implementation that lets an earlier request
+    change what a later one gets fails at that later step. *)
+Definition opt_list_eqb (a b : option (list string)) : bool := option_eqb (list_eqb String.eqb) a b.
+Definition mode_eqb (a b : mode) : bool :=
+  match a, b with Decision, Decision => true | Proxy, Proxy => true | _, _ => false end.
+Definition same_instance (h : list case) : bool :=
+  match h with
+  | [] => true
+  | c0 :: r => forallb (fun c => mode_eqb (k_mode c) (k_mode c0) &&
+                                 opt_list_eqb (cfg_decision (k_cfg c)) (cfg_decision (k_cfg c0)) &&
+                                 opt_list_eqb (cfg_proxy (k_cfg c)) (cfg_proxy (k_cfg c0))) r
+  end.
+
+Fixpoint dedup_z (l : list Z) : list Z :=
+  match l with
+  | [] => []
+  | x :: r => if existsb (Z.eqb x) r then dedup_z r else x :: dedup_z r
+  end.
+
+Definition check (impl_fixed : bool) (h : list case) : verdict :=
+  {| v_corr := same_instance h && forallb (fun c => v_corr (check1 impl_fixed c)) h;
+     v_prop := forallb (fun c => v_prop (check1 impl_fixed c)) h;
+     v_guards := dedup_z (flat_map (fun c => v_guards (check1 impl_fixed c)) h) |}.
 
 (* BEGIN aliases (generated from harness/c09/c09_test.go c09Aliases; the driver refuses to run when the two differ) *)
 Definition q0 : string := "Forwarded".
